@@ -353,7 +353,6 @@ func keysOf(m map[string]bool) []string {
 	return ks
 }
 
-
 // adjacentValueArgs: like adjacentArgs for calls whose two arguments are element
 // values loaded from list[i−1] and list[i] (possibly through field selections).
 func adjacentValueArgs(call *ssa.Call) (prevThenCur bool, ok bool) {
